@@ -50,7 +50,8 @@ type Result struct {
 	Violations  []Violation    `json:"violations"`
 	Infra       string         `json:"infra,omitempty"` // non-empty: infrastructure trouble (exit 2)
 	Exhaustive  bool           `json:"exhaustive"`
-	Seeds       []int64        `json:"seeds"` // run seeds used (first few)
+	Seeds       []int64        `json:"seeds"`                // run seeds used (first few)
+	RunHashes   []string       `json:"run_hashes,omitempty"` // determinism self-test: digest of each run's complete event log
 }
 
 type Ctx struct {
@@ -553,4 +554,19 @@ func runBubble(t *testing.T, f func(t *testing.T)) {
 	if pv != nil {
 		panic(pv)
 	}
+}
+
+// RunHash records a digest of one run's complete event log (only when VERIF_RUNHASH is set).
+func (c *Ctx) RunHash(trace []simrt.Event, extra ...any) {
+	if os.Getenv("VERIF_RUNHASH") == "" {
+		return
+	}
+	h := sha256.New()
+	for _, e := range trace {
+		fmt.Fprintf(h, "%d|%d|%s|%s|%s|%s|%d|%d|%x|%s\n", e.Seq, e.Task, e.TName, e.Kind, e.Path, e.Path2, e.Off, e.N, sha256.Sum256(e.Data), e.Note)
+	}
+	for _, x := range extra {
+		fmt.Fprintf(h, "%v|", x)
+	}
+	c.Res.RunHashes = append(c.Res.RunHashes, fmt.Sprintf("%x", h.Sum(nil)[:10]))
 }
